@@ -205,6 +205,23 @@ class _Canon(ast.NodeTransformer):
     # C19: operands of `and` / `or` are written in sorted order where the order cannot matter (see `swappable`)
     def visit_BoolOp(self, n):
         self.generic_visit(n)
+        if not self.pattern and any(isinstance(v, ast.Constant) and isinstance(v.value, bool) for v in n.values):
+            # constant operands (a helper expanded with a constant flag): `False or x` is x, `True and x` is x,
+            # `True or x` is True, `False and x` is False (the operands before the deciding constant are kept: they are evaluated)
+            neutral = isinstance(n.op, ast.And)
+            vals = []
+            for v in n.values:
+                if isinstance(v, ast.Constant) and isinstance(v.value, bool):
+                    if v.value is neutral:
+                        continue
+                    vals.append(v)
+                    break
+                vals.append(v)
+            if not vals:
+                return ast.copy_location(ast.Constant(value=neutral), n)
+            if len(vals) == 1:
+                return vals[0]
+            n.values = vals
         if swappable(n) and not any(_has_meta(v) for v in n.values):
             n.values = sorted(n.values, key=lambda v: ast.unparse(v))
         return n
@@ -265,6 +282,8 @@ class _Canon(ast.NodeTransformer):
 
     def visit_IfExp(self, n):
         self.generic_visit(n)
+        if isinstance(n.test, ast.Constant) and isinstance(n.test.value, bool) and not self.pattern:
+            return n.body if n.test.value else n.orelse      # (a helper expanded with a constant flag argument)
         t, sw = self._positive(n.test)
         if sw:
             n.test, n.body, n.orelse = t, n.orelse, n.body
@@ -351,7 +370,7 @@ class _Canon(ast.NodeTransformer):
     def visit_Return(self, n):
         self.generic_visit(n)
         v = n.value
-        if self.pattern or v is None or _has_meta(v):
+        if self.pattern or v is None or _has_meta(v) or getattr(n, "_keep_expr", False):
             return n
         if isinstance(v, ast.Call) and isinstance(v.func, ast.Name) and v.func.id == "bool" and len(v.args) == 1 and not v.keywords \
                 and isinstance(v.args[0], (ast.BoolOp, ast.UnaryOp)):
@@ -602,6 +621,11 @@ class _Canon(ast.NodeTransformer):
         return n
 
     def visit_FunctionDef(self, n):
+        # a function whose whole body is one `return <expression>` is a named expression: it stays one (C22 does not apply),
+        # so that it can still be expanded in place where it is called
+        body = [st for st in n.body if not (isinstance(st, ast.Expr) and isinstance(st.value, ast.Constant))]
+        if len(body) == 1 and isinstance(body[0], ast.Return):
+            body[0]._keep_expr = True
         return self._block(n, doc=True)
 
     visit_AsyncFunctionDef = visit_FunctionDef
